@@ -270,7 +270,7 @@ func c09Case(run *evid.Run, i int, j *Journal) {
 	run.Eval(1)
 	run.Count("states_reloaded", nStates)
 	run.Count("distinct_completion_orders", len(orders))
-	if i < 2 {
+	if i < 2 || run.NumSamples() < 2 {
 		run.Sample(histSample(h))
 	}
 }
